@@ -51,6 +51,31 @@ class BuildError(Exception):
     pass
 
 
+def write_literals(u, path):
+    """integer literals (>= 256) that occur in the unit's library sources and the headers of the same name: a dictionary for the
+    generators (magic constants compared against inside the library are unreachable by chance); steering only"""
+    vals = set()
+    for s in u.liba:
+        if s.startswith('wrap:'):
+            continue
+        stem = os.path.splitext(os.path.basename(s))[0]
+        for f in (os.path.join(REPO, 'src', s), os.path.join(REPO, 'include', 'a', stem + '.h')):
+            try:
+                text = open(f, errors='replace').read()
+            except OSError:
+                continue
+            text = re.sub(r'/\*.*?\*/', ' ', text, flags=re.S)
+            for m in re.finditer(r'\b0[xX]([0-9a-fA-F]{3,16})\b|\b([1-9][0-9]{2,18})\b(?![.eE])', text):
+                v = int(m.group(1), 16) if m.group(1) else int(m.group(2))
+                if 256 <= v < 2 ** 64:
+                    vals.add(v)
+    vals = sorted(vals)[:4096]
+    with open(path, 'w') as f:
+        f.write('// generated from the library sources of this unit\n')
+        f.write('static unsigned long long const vp_literals[] = {%s0};\n' % ''.join('0x%xull, ' % v for v in vals))
+        f.write('static unsigned const vp_nliterals = %d;\n' % len(vals))
+
+
 def build_units(pid, units, want_fuzz, want_enum, log):
     """compile everything from REPO's working tree; returns after all binaries exist"""
     bdir = os.path.join(OUTDIR, 'build', pid)
@@ -67,6 +92,7 @@ def build_units(pid, units, want_fuzz, want_enum, log):
     for u in units:
         ud = os.path.join(bdir, u.name)
         os.makedirs(ud)
+        write_literals(u, os.path.join(ud, 'vp_literals.h'))
         variants = [('san', SAN + [u.opt, '-g'])]
         if want_fuzz and u.fuzz:
             variants.append(('fz', SAN + [u.opt, '-g', '-fsanitize=fuzzer-no-link']))
@@ -88,7 +114,7 @@ def build_units(pid, units, want_fuzz, want_enum, log):
                 jobs.append(cmd)
                 objs.append(o)
             eo = os.path.join(ud, '%s_exec.o' % vn)
-            jobs.append(['clang++', '-std=gnu++17'] + vflags + ['-fPIC'] + u.defs + u.exec_defs + inc +
+            jobs.append(['clang++', '-std=gnu++17'] + vflags + ['-fPIC'] + u.defs + u.exec_defs + ['-I', ud] + inc +
                         ['-Wno-c99-designator', '-c', os.path.join(VERIF, u.exec_src), '-o', eo])
             objs.append(eo)
             if vn == 'san':
